@@ -175,7 +175,7 @@ def scanner_world(it, prog, first=None):
     s = Obj('scanner', 'heap')
     s.f[('chr',)] = first if first is not None else Sym('c0', ALLCH)
     s.f[('usebuf',)] = 0
-    s.f[('sawspace',)] = 0
+    s.f[('sawspace',)] = 0; s.f[('haspeek',)] = 0
     s.f[('file',)] = Ptr(Obj('FILE', 'heap'), ())
     s.f[('loc', 'file')] = Ptr(Obj('fname', 'heap'), (0,))
     s.f[('loc', 'line')] = Sym('line0'); s.f[('loc', 'col')] = Sym('col0')
@@ -261,6 +261,8 @@ def rule_punct(chk, prog, tier):
             ret = l.what
         cur = s.f[('chr',)]
         la = cur.dom if isinstance(cur, Sym) else frozenset([cur])
+        pk = s.f.get(('peekchr',))
+        it.event('peek', int(bool(s.f.get(('haspeek',)))), (pk.dom if isinstance(pk, Sym) else pk))
         return (ret, list(it.user['consumed']), la, s.f.get(('usebuf',)), s.f.get(('sawspace',)),
                 loc.f.get(('line',)), s.f[('loc', 'line')], s.f[('loc', 'col')])
     runs = explore(prog, runner, models, max_runs=5000)
@@ -314,10 +316,12 @@ def rule_punct(chk, prog, tier):
             classify_multi(r, consumed, leafs[0], evs, where)
             continue
         tk = tokname.get(ret, ret)
-        if unget:
-            # ".." push-back: effective spelling '.', the stream must be restored
-            ok = [chars(d) for d in consumed] == ['.', '.'] and tk == 'TPERIOD' and la == frozenset([ord('.')]) and len(unget) == 1
-            r.instance(ok, 'pushback:..', where, '".." followed by a non-period must return "." with the second "." pushed back (chr restored, one ungetc); got %s after %s' % (tk, [chars(d) for d in consumed]))
+        peek = next((e for e in evs if e[0] == 'peek'), ('peek', 0, None))
+        if unget or peek[1]:
+            # ".." push-back: effective spelling '.', the stream must be restored: the third character goes back to the file (one ungetc) or into the scanner's one-character peek slot
+            third_kept = (len(unget) == 1 and not peek[1]) or (not unget and peek[1] == 1 and isinstance(peek[2], frozenset) and ord('.') not in peek[2] and len(peek[2]) == len(ALLCH) - 1)
+            ok = [chars(d) for d in consumed] == ['.', '.'] and tk == 'TPERIOD' and la == frozenset([ord('.')]) and third_kept
+            r.instance(ok, 'pushback:..', where, '".." followed by a non-period must return "." with the second "." as the current character again and the third character kept (ungetc or peek slot); got %s after %s, ungetc %s, peek %s' % (tk, [chars(d) for d in consumed], len(unget), peek[1:]))
             continue
         if not single:
             if tk == 'TOTHER' and len(consumed) == 1:
@@ -519,7 +523,7 @@ def rule_comments(chk, prog, tier):
             def runner(it):
                 it.MAX_STEPS = 20000
                 s = Obj('scanner', 'heap'); pos = {'i': 0}
-                s.f[('chr',)] = ord(st[0]) if st else -1; s.f[('usebuf',)] = 0; s.f[('sawspace',)] = 0
+                s.f[('chr',)] = ord(st[0]) if st else -1; s.f[('usebuf',)] = 0; s.f[('sawspace',)] = 0; s.f[('haspeek',)] = 0
                 s.f[('loc', 'file')] = None; s.f[('loc', 'line')] = 1; s.f[('loc', 'col')] = 1
                 def nextchar(i2, a, e):
                     pos['i'] += 1
@@ -622,7 +626,9 @@ def rule_random_lex(chk, prog, tier):
     from props import c11
     rnd = random.Random(4242)
     PIECES = ['a', 'u8', 'L', 'U', 'u', 'x1', '_', '0', '1', '12', '0x1f', '1e', '+', '-', '1.', '.5', 'p', 'e', '.', '..', '...', '->', '-', '>', '>>', '>>=', '<', '<<=', '=', '==', '!', '&', '&&', '|', '^', '%',
-              '*', '/', '//', '/*', '*/', ':', '::', '#', '##', '?', ';', ',', '(', ')', '[', ']', '{', '}', '~', '"', "'", '"s"', "'c'", '\\n', '\\', '\\x', ' ', '  ', '\t', '\n', '\\\n', '\\\n', '@', '$', '`', '"a\\"b"', "'\\''"]
+              '*', '/', '//', '/*', '*/', ':', '::', '#', '##', '?', ';', ',', '(', ')', '[', ']', '{', '}', '~', '"', "'", '"s"', "'c'", '\\n', '\\', '\\x', ' ', '  ', '\t', '\n', '\\\n', '\\\n', '@', '$', '`', '"a\\"b"', "'\\''",
+              # form feed and vertical tab are white space; bytes >= 0x80 (also 0xff, which is not EOF) are ordinary characters of comments and literals
+              '\f', '\v', ' \f', '"\udcff"', '/*\udcff*/', '//\udcff\n', '"\u00e9"', "'\udcff'"]
     N = 700 if tier == 'quick' else 6000
     cases = []; seen = set()
     while len(cases) < N:
